@@ -12,9 +12,90 @@ import (
 	"strings"
 	"testing"
 
+	"github.com/RoaringBitmap/roaring/v2"
 	"github.com/sourcegraph/zoekt"
 	"github.com/sourcegraph/zoekt/query"
 )
+
+// vfsC18SameSizeAtoms: k repository-set atoms of ONE kind and ONE cardinality whose members differ (padded with ids / names of
+// no repository), so that they print alike: query.RepoIDs prints only `count:N` for more than one id, query.RepoSet only `size=N`
+// for more than five names, query.BranchesRepos only the cardinality per branch.  Some atoms repeat an earlier one exactly.
+func vfsC18SameSizeAtoms(r *vfRand, repos []*vfsRepo, k int, branchNames []string) []vfsQ {
+	kind := r.Intn(3)
+	card := 2 + r.Intn(3)
+	if kind == 1 && r.Chance(60) {
+		card = 6 + r.Intn(3) // above the limit up to which RepoSet.String lists the names
+	}
+	br := r.Pick(branchNames)
+	var out []vfsQ
+	var members [][]*vfsRepo
+	for j := 0; j < k; j++ {
+		var mem []*vfsRepo
+		if j > 0 && r.Chance(25) {
+			mem = members[r.Intn(j)] // the same members as an earlier atom
+		} else {
+			for try := 0; try < 8; try++ {
+				mem = nil
+				for _, rp := range repos {
+					if len(mem) < card && r.Chance(45) {
+						mem = append(mem, rp)
+					}
+				}
+				fresh := true
+				for _, m := range members {
+					if fmt.Sprint(m) == fmt.Sprint(mem) {
+						fresh = false
+					}
+				}
+				if fresh {
+					break
+				}
+			}
+		}
+		members = append(members, mem)
+		in := map[*vfsRepo]bool{}
+		for _, rp := range mem {
+			in[rp] = true
+		}
+		isMem := func(rp *vfsRepo) bool { return in[rp] }
+		switch kind {
+		case 0, 2:
+			bm := roaring.New()
+			var l []uint32
+			for _, rp := range mem {
+				bm.Add(rp.id)
+				l = append(l, rp.id)
+			}
+			for x := 0; len(l) < card; x++ {
+				id := uint32(9000000 + j*100 + x)
+				bm.Add(id)
+				l = append(l, id)
+			}
+			var l64 []uint64
+			for _, x := range l {
+				l64 = append(l64, uint64(x))
+			}
+			if kind == 0 {
+				out = append(out, vfsQ{&query.RepoIDs{Repos: bm}, func(rp *vfsRepo, _ *vfsDoc) bool { return isMem(rp) }, fmt.Sprint("repoids:", l), "repoids", "(CIds " + cNList(l64) + ")"})
+			} else {
+				out = append(out, vfsQ{&query.BranchesRepos{List: []query.BranchRepos{{Branch: br, Repos: bm}}},
+					func(rp *vfsRepo, dc *vfsDoc) bool { return isMem(rp) && vfsHasBranch(dc, br) }, fmt.Sprintf("branchesrepos:%q:%v", br, l), "branchesrepos1:" + br,
+					"(CBranchesRepos " + cList([]string{cTuple(cN(vfsBranchID[br]), cNList(l64))}) + ")"})
+			}
+		default:
+			set := map[string]bool{}
+			for _, rp := range mem {
+				set[rp.name] = true
+			}
+			for x := 0; len(set) < card; x++ {
+				set[fmt.Sprintf("no-such-repo-%d-%d", j, x)] = true
+			}
+			out = append(out, vfsQ{&query.RepoSet{Set: set}, func(rp *vfsRepo, _ *vfsDoc) bool { return isMem(rp) }, fmt.Sprint("reposet:", vfSortedKeys(set)), "reposet",
+				vfsNamesTerm(repos, isMem)})
+		}
+	}
+	return out
+}
 
 func vfsC18ShardTerm(sh *vfsShard) string {
 	var ps []string
@@ -91,12 +172,8 @@ func TestVerifC18(t *testing.T) {
 		}
 		// ---- query: top-level conjunction of set filters, type:repo and content atoms
 		hasTypeRepo := false
-		mkTypeRepo := func() vfsQ {
+		mkTypeRepoOf := func(child vfsQ) vfsQ {
 			hasTypeRepo = true
-			child := vfsContentAtom(r, w.repos)
-			if r.Chance(50) {
-				child = vfsAnd(vfsSetAtom(r, w.repos, branchNames), child)
-			}
 			names := map[string]bool{}
 			for _, rp := range w.repos {
 				for _, dc := range rp.docs {
@@ -108,12 +185,55 @@ func TestVerifC18(t *testing.T) {
 			return vfsQ{&query.Type{Type: query.TypeRepo, Child: child.q}, func(rp *vfsRepo, _ *vfsDoc) bool { return names[rp.name] },
 				"(type:repo " + child.desc + ")", "typerepo", "(CTypeRepo " + child.coq + ")"}
 		}
+		mkTypeRepo := func() vfsQ {
+			child := vfsContentAtom(r, w.repos)
+			if r.Chance(50) {
+				child = vfsAnd(vfsSetAtom(r, w.repos, branchNames), child)
+			}
+			return mkTypeRepoOf(child)
+		}
 		var children []vfsQ
 		nset := r.Intn(3)
+		multiTR := r.Chance(15)
+		if multiTR {
+			nset = r.Intn(2)
+		}
 		for k := 0; k < nset; k++ {
 			children = append(children, vfsSetAtom(r, w.repos, branchNames))
 		}
-		if r.Chance(20) {
+		if multiTR {
+			// 2-3 type:repo atoms in ONE query, each to be evaluated on ITS OWN child: the children are repository-set atoms of equal
+			// kind and cardinality but different members (they print alike), alone or in a conjunction with the same content atom; some
+			// children are identical (sharing an evaluation is fine there).  Forms: separate top-level children, alternatives of an
+			// or, one of them under not.
+			k := 2 + r.Intn(2)
+			atoms := vfsC18SameSizeAtoms(r, w.repos, k, branchNames)
+			common := vfsContentAtom(r, w.repos)
+			withContent := r.Chance(50)
+			var trs []vfsQ
+			for _, a := range atoms {
+				child := a
+				if withContent {
+					child = vfsAnd(a, common)
+				}
+				trs = append(trs, mkTypeRepoOf(child))
+			}
+			switch r.Intn(3) {
+			case 0:
+				children = append(children, trs...)
+			case 1:
+				alt := vfsAnd(trs[0], vfsContentAtom(r, w.repos))
+				for _, x := range trs[1:] {
+					alt = vfsOr(alt, vfsAnd(x, vfsContentAtom(r, w.repos)))
+				}
+				children = append(children, alt)
+			default:
+				children = append(children, trs[0], vfsNot(trs[1]))
+				if len(trs) > 2 {
+					children = append(children, vfsOr(trs[2], vfsContentAtom(r, w.repos)))
+				}
+			}
+		} else if r.Chance(20) {
 			children = append(children, mkTypeRepo())
 		}
 		ncont := r.Intn(3)
@@ -366,6 +486,9 @@ func TestVerifC18(t *testing.T) {
 		class := []string{"searcher=" + searcherKind, fmt.Sprint("shards=", len(w.shards)), fmt.Sprint("children=", len(children)), fmt.Sprint("files>0=", len(gotL) > 0)}
 		for _, k := range kinds {
 			class = append(class, "kind="+k)
+		}
+		if multiTR {
+			class = append(class, "multi-typerepo")
 		}
 		nontriv := (nset > 0 || hasTypeRepo) && len(w.shards) > 1
 		vfCase(coq, vfKey(nw, descs), nontriv, class, map[string]any{"query": descs, "shards": len(w.shards), "files": len(gotL), "listed": len(rl.Repos)})
